@@ -248,10 +248,12 @@ func (c *compiler) evalFunctionLiteral(node *ast.FunctionLiteral) (interface{}, 
 // and by !, ==, !=, && and ||; the same error coming out of a nested
 // expression (nope + 1, f(nope), nope()) is a real failure.
 func tolerableUnknown(node ast.Expression, err error) bool {
-	if _, ok := node.(*ast.Identifier); !ok {
+	id, ok := node.(*ast.Identifier)
+	if !ok || id.Callee != nil {
+		// nope.Field is a path, not an identifier
 		return false
 	}
-	_, ok := err.(*ErrUnknownIdentifier)
+	_, ok = err.(*ErrUnknownIdentifier)
 	return ok
 }
 
